@@ -716,6 +716,18 @@ func genFuzz(stream string, seed uint64, n int) []GenCase {
 		}
 		add(script, oddObject(r), "valid-program-odd-object")
 	}
+	// every kind of odd host object, every field of it read alone and together, through Execute and through Run
+	for k := 0; k < 9; k++ {
+		for _, sc := range []string{"return Count;", "return Name;", "return Tags;", "return Nums;", "return Flag;", "return Score;", "return Big;", "return Missing;",
+			"return [Count, Name, Tags, Nums, Flag, Score, Big];", "if (Nums) { return 1; } return 2;", "x = Nums; y = Flag; return [x, y, len(Tags), type(Nums), string(Flag)];",
+			"foreach v in Nums { rec(v); } return 1;", "foreach v in Tags { rec(v); } return len(Big);"} {
+			c := Case{ID: fmt.Sprintf("%s-%d", stream, id), Script: sc, Opt: id%2 == 0, Tags: []string{"odd-object-sweep"}, Show: []string{"runbool", "spec"},
+				Fns: []HostFn{recFn(), {Name: "hnil", Kind: "nil"}, {Name: "hpanic", Kind: "panic"}},
+				Runs: []Run{{Obj: oddObjectN(k), Polls: 5000}, {Obj: stdObject(r), Polls: 5000}}}
+			id++
+			out = append(out, GenCase{Case: c, Stream: stream, NonTrivial: true, Role: "api"})
+		}
+	}
 	// unbounded recursion must come to an error (call-depth limit), with the evaluator usable afterwards
 	{
 		c := Case{ID: fmt.Sprintf("%s-%d", stream, id), Script: "function r(n) { return r(n + 1); } if (Flag) { return r(0); } return 7;", Opt: true, Tags: []string{"unbounded-recursion"},
